@@ -31,6 +31,7 @@ use tokio_util::compat::FuturesAsyncReadCompatExt;
 
 use std::{
     collections::HashMap,
+    pin::Pin,
     sync::{
         atomic::{AtomicBool, Ordering},
         Arc,
@@ -94,10 +95,26 @@ struct PendingOpen {
     permit: Permit,
 }
 
+/// A `report_substream_open*` call of a scripted connection that is suspended on a full protocol
+/// inbox. The future owns the connection's `ProtocolSet` (the connection task is inside that
+/// `await` and can do nothing else) and hands it back when it completes.
+type Inflight = Pin<Box<dyn Future<Output = (ProtocolSet, Result<(), String>)>>>;
+
+/// Outcome of handing a substream result to a protocol.
+#[derive(Debug, Clone, PartialEq, Eq)]
+pub enum Delivery {
+    /// The call returned.
+    Done(Result<(), String>),
+    /// The call is suspended (the protocol's inbox is full); see [`ServiceHarness::deliver`].
+    Blocked,
+}
+
 struct Conn {
     peer: PeerId,
-    set: ProtocolSet,
+    /// `None` while a call is in flight.
+    set: Option<ProtocolSet>,
     pending: Vec<PendingOpen>,
+    inflight: Option<Inflight>,
 }
 
 struct Flag(AtomicBool);
@@ -117,6 +134,9 @@ pub struct ServiceHarness {
     conns: HashMap<usize, Conn>,
     /// Only used for its senders towards the services.
     spare: ProtocolSet,
+    /// Filler events (`DialFailure`) currently sitting in each inbox; [`Self::poll_service`] skips
+    /// them silently.
+    filler: Vec<usize>,
 }
 
 fn block<T>(future: impl Future<Output = T>) -> Option<T> {
@@ -162,17 +182,69 @@ impl ServiceHarness {
             .collect();
         let handle = manager.transport_handle(Arc::new(DefaultExecutor));
         let spare = handle.protocol_set(ConnectionId::from(usize::MAX));
-        Self { manager, handle, names, services, conns: HashMap::new(), spare }
+        let filler = vec![0; keep_alive.len()];
+        Self { manager, handle, names, services, conns: HashMap::new(), spare, filler }
     }
 
     fn index(&self, protocol: &ProtocolName) -> usize {
         self.names.iter().position(|name| name == protocol).expect("verif: registered protocol")
     }
 
-    /// Number of events waiting in the inbox of service `q`.
+    /// Number of events (filler not counted) waiting in the inbox of service `q`.
     pub fn inbox_len(&self, q: usize) -> usize {
         let tx = &self.spare.protocols.get(&self.names[q]).expect("protocol").tx;
-        tx.max_capacity() - tx.capacity()
+        tx.max_capacity() - tx.capacity() - self.filler[q]
+    }
+
+    /// Filler events sitting in the inbox of service `q`.
+    pub fn filler_len(&self, q: usize) -> usize {
+        self.filler[q]
+    }
+
+    /// Slots of the inbox of service `q` a new sender could take right now.
+    pub fn inbox_free(&self, q: usize) -> usize {
+        self.spare.protocols.get(&self.names[q]).expect("protocol").tx.capacity()
+    }
+
+    /// Fill the inbox of service `q` to its capacity with filler events; returns how many fit.
+    fn fill(&mut self, q: usize) -> usize {
+        let tx = self.spare.protocols.get(&self.names[q]).expect("protocol").tx.clone();
+        let mut n = 0;
+        while tx
+            .try_send(InnerTransportEvent::DialFailure { peer: PeerId::random(), addresses: Vec::new() })
+            .is_ok()
+        {
+            n += 1;
+        }
+        self.filler[q] += n;
+        n
+    }
+
+    fn start(&mut self, cid: usize, mut future: Inflight) -> Delivery {
+        let waker = futures::task::noop_waker();
+        let mut cx = Context::from_waker(&waker);
+        let conn = self.conns.get_mut(&cid).expect("connection");
+        match future.as_mut().poll(&mut cx) {
+            Poll::Ready((set, result)) => {
+                conn.set = Some(set);
+                Delivery::Done(result)
+            }
+            Poll::Pending => {
+                conn.inflight = Some(future);
+                Delivery::Blocked
+            }
+        }
+    }
+
+    /// Poll the suspended call of connection `cid` once. `None`: no call is in flight.
+    pub fn deliver(&mut self, cid: usize) -> Option<Delivery> {
+        let future = self.conns.get_mut(&cid)?.inflight.take()?;
+        Some(self.start(cid, future))
+    }
+
+    /// Connection `cid` is suspended inside a `report_substream_open*` call.
+    pub fn is_blocked(&self, cid: usize) -> bool {
+        self.conns.get(&cid).map(|conn| conn.inflight.is_some()).unwrap_or(false)
     }
 
     /// A transport accepted connection `cid` with `peer`: build its `ProtocolSet` the way
@@ -194,7 +266,7 @@ impl ServiceHarness {
             Some(Err(error)) => Err(format!("{error:?}")),
             None => Err("blocked".into()),
         };
-        self.conns.insert(cid, Conn { peer, set, pending: Vec::new() });
+        self.conns.insert(cid, Conn { peer, set: Some(set), pending: Vec::new(), inflight: None });
         result
     }
 
@@ -228,11 +300,12 @@ impl ServiceHarness {
         }
         let conn = self.conns.get_mut(&cid)?;
         let peer = conn.peer;
+        let set = conn.set.as_mut()?;
         let waker = futures::task::noop_waker();
         let mut cx = Context::from_waker(&waker);
         let mut early = Vec::new();
         let result = {
-            let mut future = Box::pin(conn.set.report_connection_closed(peer, ConnectionId::from(cid)));
+            let mut future = Box::pin(set.report_connection_closed(peer, ConnectionId::from(cid)));
             match future.as_mut().poll(&mut cx) {
                 Poll::Ready(result) => result,
                 Poll::Pending => {
@@ -287,6 +360,9 @@ impl ServiceHarness {
     /// The connection task of `cid` is gone: its `ProtocolSet` (command channel, unanswered open
     /// requests and their permits) is dropped. Commands still queued are read first and returned.
     pub fn drop_connection(&mut self, cid: usize) -> Option<Vec<Cmd>> {
+        if self.is_blocked(cid) {
+            return None;
+        }
         let mut unread = Vec::new();
         loop {
             match self.next_command(cid)? {
@@ -311,7 +387,8 @@ impl ServiceHarness {
         let waker = futures::task::noop_waker();
         let mut cx = Context::from_waker(&waker);
         let conn = self.conns.get_mut(&cid)?;
-        Some(match conn.set.poll_next_unpin(&mut cx) {
+        let names = &self.names;
+        Some(match conn.set.as_mut()?.poll_next_unpin(&mut cx) {
             Poll::Pending => Cmd::Pending,
             Poll::Ready(None) => Cmd::Closed,
             Poll::Ready(Some(ProtocolCommand::ForceClose)) => Cmd::ForceClose,
@@ -323,7 +400,7 @@ impl ServiceHarness {
                 keep_alive,
                 ..
             })) => {
-                let protocol = self.names.iter().position(|name| name == &protocol).expect("protocol");
+                let protocol = names.iter().position(|name| name == &protocol).expect("protocol");
                 let id = substream_id.verif_as_usize();
                 conn.pending.push(PendingOpen { protocol, id, permit });
                 Cmd::Open {
@@ -338,43 +415,65 @@ impl ServiceHarness {
 
     /// Connection `cid` answers the open request `id`: `report_substream_open` with a dummy
     /// substream and the request's permit, or `report_substream_open_failure` with the same id.
-    pub fn reply(&mut self, cid: usize, id: usize, opened: bool) -> Result<(), String> {
-        let conn = self.conns.get_mut(&cid).ok_or("verif: unknown connection")?;
+    /// With `full` the protocol's inbox is first filled to its capacity with filler events, so that
+    /// the answer arrives at a protocol that is slow to drain its events.
+    pub fn reply(&mut self, cid: usize, id: usize, opened: bool, full: bool) -> Result<Delivery, String> {
+        let conn = self.conns.get(&cid).ok_or("verif: unknown connection")?;
+        if conn.set.is_none() {
+            return Err("verif: connection is suspended".into());
+        }
         let at = conn.pending.iter().position(|p| p.id == id).ok_or("verif: no such request")?;
+        let q = conn.pending[at].protocol;
+        if full {
+            self.fill(q);
+        }
+        let conn = self.conns.get_mut(&cid).expect("connection");
         let PendingOpen { protocol, permit, .. } = conn.pending.remove(at);
         let name = self.names[protocol].clone();
-        let outcome = if opened {
-            let substream = dummy_substream(conn.peer, id, conn.set.protocol_codec(&name));
-            block(conn.set.report_substream_open(
-                conn.peer,
-                name,
-                Direction::Outbound(SubstreamId::from(id)),
-                substream,
-                permit,
-            ))
-            .map(|r| r.map_err(|e| format!("{e:?}")))
-        } else {
-            drop(permit);
-            block(conn.set.report_substream_open_failure(
-                name,
-                SubstreamId::from(id),
-                SubstreamError::ConnectionClosed,
-            ))
-            .map(|r| r.map_err(|e| format!("{e:?}")))
-        };
-        outcome.unwrap_or(Err("blocked".into()))
+        let peer = conn.peer;
+        let mut set = conn.set.take().expect("checked above");
+        let codec = set.protocol_codec(&name);
+        let future: Inflight = Box::pin(async move {
+            let result = if opened {
+                let substream = dummy_substream(peer, id, codec);
+                set.report_substream_open(peer, name, Direction::Outbound(SubstreamId::from(id)), substream, permit)
+                    .await
+                    .map_err(|e| format!("{e:?}"))
+            } else {
+                drop(permit);
+                set.report_substream_open_failure(name, SubstreamId::from(id), SubstreamError::ConnectionClosed)
+                    .await
+                    .map_err(|e| format!("{e:?}"))
+            };
+            (set, result)
+        });
+        Ok(self.start(cid, future))
     }
 
     /// The remote opened a substream for protocol `q` on connection `cid`. `Err("nopermit")` when
-    /// the connection cannot get a permit any more (as `TcpConnection` checks first).
-    pub fn inbound(&mut self, cid: usize, q: usize) -> Result<(), String> {
+    /// the connection cannot get a permit any more (as `TcpConnection` checks first). `full` as in
+    /// [`Self::reply`].
+    pub fn inbound(&mut self, cid: usize, q: usize, full: bool) -> Result<Delivery, String> {
         let name = self.names[q].clone();
         let conn = self.conns.get_mut(&cid).ok_or("verif: unknown connection")?;
-        let permit = conn.set.try_get_permit().ok_or("nopermit")?;
-        let substream = dummy_substream(conn.peer, 0, conn.set.protocol_codec(&name));
-        block(conn.set.report_substream_open(conn.peer, name, Direction::Inbound, substream, permit))
-            .map(|r| r.map_err(|e| format!("{e:?}")))
-            .unwrap_or(Err("blocked".into()))
+        let set = conn.set.as_mut().ok_or("verif: connection is suspended")?;
+        let permit = set.try_get_permit().ok_or("nopermit")?;
+        if full {
+            self.fill(q);
+        }
+        let conn = self.conns.get_mut(&cid).expect("connection");
+        let peer = conn.peer;
+        let mut set = conn.set.take().expect("checked above");
+        let codec = set.protocol_codec(&name);
+        let future: Inflight = Box::pin(async move {
+            let substream = dummy_substream(peer, 0, codec);
+            let result = set
+                .report_substream_open(peer, name, Direction::Inbound, substream, permit)
+                .await
+                .map_err(|e| format!("{e:?}"));
+            (set, result)
+        });
+        Ok(self.start(cid, future))
     }
 
     /// `TransportService::open_substream`.
@@ -431,7 +530,13 @@ impl ServiceHarness {
                         }
                         TransportEvent::SubstreamOpenFailure { substream, error } =>
                             SvcEvent::OpenFailure { id: substream.verif_as_usize(), error: format!("{error:?}") },
-                        TransportEvent::DialFailure { peer, .. } => SvcEvent::DialFailure { peer },
+                        TransportEvent::DialFailure { peer, .. } => {
+                            if self.filler[q] > 0 {
+                                self.filler[q] -= 1;
+                                continue;
+                            }
+                            SvcEvent::DialFailure { peer }
+                        }
                     },
             }
         }
